@@ -189,7 +189,9 @@ def r1(ctx):
                         muts = [c for c in ast.walk(fn) if isinstance(c, ast.Call) and isinstance(c.func, ast.Attribute)
                                 and isinstance(c.func.value, ast.Name) and c.func.value.id == factors
                                 and c.func.attr in ("pop", "append", "insert", "remove", "extend", "reverse", "sort", "clear")]
-                        if any(m.lineno < nst.lineno for m in muts):
+                        from ..util import doc_order
+                        _pos = doc_order(fn)
+                        if any(_pos[id(m)] < _pos[id(nst)] for m in muts):
                             ok, msg = False, "the name list is computed after the factor list was mutated by the solo-factor fast path"
                 ctx.check(ok, "C02.R1", inst, where, cons, msg)
             else:
